@@ -56,6 +56,7 @@ def config(rng, tier):
         "files": rng.random() < 0.7,
         "xio": rng.random() < 0.25,
         "tg_span": rng.choice(["none", "given", "given"]),
+        "maxn": rng.choice([8] * 22 + [24, 40]),
     }
 
 
